@@ -98,8 +98,7 @@ func randomCfg(g *rand.Rand, seed int64, family string) SchedCfg {
 	b.StepDown = g.Intn(2) == 0
 	b.DPF = g.Intn(8) == 0
 	b.Lease = b.CheckQuorum && g.Intn(4) == 0
-	// MaxSizePerMsg 0 is avoided in the main stream: it makes the apply quota 0 (finding F10)
-	b.MaxSize = []uint64{1, 40, 200, noLimit}[g.Intn(4)]
+	b.MaxSize = []uint64{0, 1, 40, 200, noLimit}[g.Intn(5)]
 	b.MaxCommitted = []uint64{0, 0, 30, 100}[g.Intn(4)]
 	b.MaxUncommitted = []uint64{0, 0, 60, 400}[g.Intn(4)]
 	b.MaxInflightBytes = []uint64{0, 0, 0, 300}[g.Intn(4)]
